@@ -211,7 +211,7 @@ def _render_generic(inst: Inst, parent, res):
                 rendered.append(rsel(new_frames[j].operand("columns")))
                 j += 1
             else:
-                rendered.append("-")  # dropped
+                rendered.append("!")  # removed from the new Concat
         if j != len(new_frames):
             return f"?concat-frames:{inner}"
     else:
@@ -573,6 +573,29 @@ def fam_combine_first(ctx):
     return run_rule_family(ctx, "CombineFirst/CombineFirstAlign._simplify_up", insts, cap_parents=60 if ctx.quick else None)
 
 
+def fam_opalign(ctx):
+    """OpAlignPartitions / MethodOperatorAlign._simplify_up: both operands are projected (D32)"""
+    from dask_expr._expr import MethodOperatorAlign, OpAlignPartitions
+
+    insts = []
+    for lc, rcols in ((["a", "b", "c"], ["a", "b", "c"]), (["a", "b", "c"], ["b", "c", "k"]), (["b", "ab", "a"], ["a", "k"])):
+        l, r = base(lc), base(rcols, salt=3, npartitions=1)
+        for nm, e in (("OpAlignPartitions", OpAlignPartitions(l.expr, r.expr, "__add__")),
+                      ("MethodOperatorAlign", MethodOperatorAlign(l.expr, r.expr, "add", 1, None, None))):
+            try:
+                outc = list(e.columns)
+            except Exception:  # noqa: BLE001
+                continue
+            insts.append(Inst("opalign", e, [e.frame, e.other], f"frame={rc(lc)} other={rc(rcols)}", outc, tag=nm))
+        e = OpAlignPartitions(l.expr, r[rcols[0]].expr, "__add__")
+        try:
+            outc = list(e.columns)
+            insts.append(Inst("opalign", e, [e.frame, e.other], f"frame={rc(lc)} other=*", outc, tag="frame+series"))
+        except Exception:  # noqa: BLE001
+            pass
+    return run_rule_family(ctx, "OpAlignPartitions/MethodOperatorAlign._simplify_up", insts, cap_parents=60 if ctx.quick else None)
+
+
 def fam_reset_index(ctx):
     from dask_expr._expr import ResetIndex
 
@@ -845,7 +868,7 @@ def fam_down(ctx):
 
 def families(ctx):
     return [fam_detproj, fam_plain, fam_reduction, fam_filter, fam_assign, fam_rename, fam_affix, fam_binop, fam_astype,
-            fam_dropna, fam_combine_first, fam_reset_index, fam_io, fam_keyed, fam_rolling, fam_merge, fam_merge_labels, fam_concat, fam_down]
+            fam_dropna, fam_combine_first, fam_opalign, fam_reset_index, fam_io, fam_keyed, fam_rolling, fam_merge, fam_merge_labels, fam_concat, fam_down]
 
 
 # =========================================================================== end-to-end support / failing-input search
@@ -958,6 +981,7 @@ def _programs():
     add("rename", lambda t: t["L"].rename(columns={"a": "A"}), "RenameFrame")
     add("rename_swap", lambda t: t["L"].rename(columns={"a": "b", "b": "a"}), "RenameFrame", "swap")
     add("rename_nokey", lambda t: t["L"].rename(columns={"a": "A", "zz": "a"}), "RenameFrame", "mapping key is not a column")
+    add("rename_twice", lambda t: t["L"].rename(columns={"a": "A"}).rename(columns={"a": "A"}), "RenameFrame", "mapping key is not a column")
     add("rename_chain", lambda t: t["L"].rename(columns={"a": "A"}).rename(columns={"A": "a2", "b": "A"}), "RenameFrame", "chain")
     add("prefix", lambda t: t["L"].add_prefix("p_"), "AddPrefix")
     add("suffix", lambda t: t["L"].add_suffix("_s"), "AddSuffix")
@@ -977,8 +1001,9 @@ def _programs():
     add("abs", lambda t: t["L"].abs(), "passthrough")
     add("clip", lambda t: t["L"].clip(lower=1, upper=5), "passthrough")
     add("isin", lambda t: t["L"].isin([0, 1, 2]), "passthrough")
-    add("where", lambda t: t["L"].where(t["L"] > 1, -1), "passthrough")
-    add("round_dict", lambda t: t["L"].round({"c": 0}), "passthrough", "dict parameter")
+    add("where", lambda t: t["L"].where(t["L"] > 1, -1), "passthrough", "frame-valued condition operand")
+    add("round_dict", lambda t: t["L"].round({"c": 0}), "passthrough", "parameter keyed by column")
+    add("fillna_dict", lambda t: t["L"].fillna({"c": 0}), "passthrough", "parameter keyed by column")
     add("neg", lambda t: -t["L"], "passthrough")
     add("cumsum", lambda t: t["L"][["a", "b", "k"]].cumsum(), "Cumulative")
     add("diff", lambda t: t["L"][["a", "b", "k"]].diff(1), "passthrough")
@@ -993,18 +1018,21 @@ def _programs():
     add("dropdup", lambda t: t["L"].drop_duplicates(subset=["b"]), "DropDuplicates", "subset", unordered=True)
     add("sort", lambda t: t["L"].sort_values(["b", "a"]), "SortValues")
     add("set_index", lambda t: t["L"].set_index("k"), "SetIndex", unordered=True)
+    add("set_index_prefix", lambda t: t["L"].set_index("a").add_prefix("p_"), "SetIndex+AddPrefix", "renaming dependent", unordered=True)
     add("set_index_nodrop", lambda t: t["L"].set_index("k", drop=False), "SetIndex", "drop=False", unordered=True)
     add("shuffle", lambda t: t["L"].shuffle("b", shuffle_method="tasks") if _dd(t["L"]) else t["L"], "Shuffle", unordered=True)
     add("nlargest", lambda t: t["L"].nlargest(3, "a"), "NLargest")
     add("nsmallest2", lambda t: t["L"].nsmallest(3, ["b", "a"]), "NLargest", "two ordering columns")
+    add("sort2_head", lambda t: t["L"].sort_values(["b", "a"]).head(3, npartitions=-1, compute=False) if _dd(t["L"]) else t["L"].sort_values(["b", "a"]).head(3), "NLargest", "NFirst two ordering columns")
     add("sort_head", lambda t: t["L"].sort_values("a").head(3, npartitions=-1, compute=False) if _dd(t["L"]) else t["L"].sort_values("a").head(3), "NLargest", "NFirst")
     add("reset_index", lambda t: t["L"].reset_index(), "ResetIndex", noindex=True)
     add("reset_index_drop", lambda t: t["L"].reset_index(drop=True), "ResetIndex", "drop", noindex=True)
     add("reset_index_named", lambda t: t["L"].set_index("k").reset_index(), "ResetIndex", "named index", unordered=True, noindex=True)
+    add("reset_index_twice", lambda t: t["L"].reset_index().reset_index(), "ResetIndex", "input has a column 'index'", noindex=True)
     add("reset_index_colindex", lambda t: t["L"].rename(columns={"ab": "index"}).reset_index(), "ResetIndex", "input has a column 'index'", noindex=True)
     add("drop", lambda t: t["L"].drop(columns=["a", "c"]), "Drop")
     add("rolling", lambda t: t["L1"][["a", "b", "k"]].rolling(2).sum(), "RollingReduction", "not grouped")
-    add("explode", lambda t: t["L"].explode("b"), "passthrough")
+    add("explode", lambda t: t["L"].explode("b"), "ExplodeFrame")
     # --- groupby
     add("gb_sum", lambda t: t["L"].groupby("b").sum(), "groupby", unordered=True)
     add("gb_count2", lambda t: t["L"].groupby(["b", "k"]).count(), "groupby", "two keys", unordered=True)
@@ -1176,6 +1204,49 @@ def _safe_simplify(q):
 _GENUINE = ("raises", "labels", "differs")
 
 
+def _sig(prog, case, kind):
+    """decidable signature of a failing case: which rule family, which shape of the program, scalar or list selection,
+    one or several consumers, how it fails"""
+    return {"site": prog.site, "trigger": prog.trigger, "selection": "list" if isinstance(case["sel"], list) else "scalar",
+            "consumers": "one" if case["term"] == "sel" else "shared", "kind": kind}
+
+
+# minimised witnesses of past findings (fixed defects D1, D17, D21, D23, D24, D25 and the shapes reported by this check);
+# always executed first
+CORPUS = [
+    {"prog": "merge_inner", "term": "sel", "sel": ["b_x", "b_y"]},  # D1
+    {"prog": "merge_inner", "term": "sel", "sel": ["b_y", "a"]},
+    {"prog": "gb_dropna_key", "term": "sel", "sel": ["a"]},  # D17
+    {"prog": "rename_twice", "term": "sel", "sel": ["A"]},  # D21
+    {"prog": "rename_nokey", "term": "sel", "sel": ["A", "b"]},
+    {"prog": "nlargest", "term": "sel", "sel": "b"},  # D23
+    {"prog": "nlargest", "term": "sel", "sel": "a"},
+    {"prog": "sort2_head", "term": "sel", "sel": "k"},
+    {"prog": "set_index_prefix", "term": "sel", "sel": "p_b"},  # D24
+    {"prog": "reset_index_twice", "term": "sel", "sel": "level_0"},  # D25
+    {"prog": "reset_index_colindex", "term": "sel", "sel": ["level_0", "a"]},
+    {"prog": "merge_lr", "term": "sel", "sel": ["b_x"]},
+    {"prog": "merge_rl", "term": "sel", "sel": ["b_y"]},
+    {"prog": "binop_unaligned", "term": "sel", "sel": ["a"]},
+    {"prog": "binop_unaligned", "term": "sel", "sel": "a"},
+    {"prog": "astype_dict", "term": "sel", "sel": "ab"},
+    {"prog": "concat0_diff", "term": "sel", "sel": ["a"]},
+    {"prog": "concat0_diff", "term": "sel", "sel": "d"},
+    {"prog": "sum", "term": "sel", "sel": ["a"]},
+    {"prog": "suffix_empty", "term": "sel", "sel": ["a"]},
+    {"prog": "binop_diffcols", "term": "sel", "sel": ["a"]},
+    {"prog": "categorize", "term": "sel", "sel": ["a"]},
+    {"prog": "corr", "term": "sel", "sel": ["a"]},
+    {"prog": "gb_cov", "term": "sel", "sel": ["a"]},
+    {"prog": "mode", "term": "sel", "sel": ["b"]},
+    {"prog": "rolling", "term": "sel", "sel": ["a"]},
+    {"prog": "rolling", "term": "sel", "sel": ["k", "a"]},
+    {"prog": "explode", "term": "sel", "sel": "b"},
+    {"prog": "round_dict", "term": "sel", "sel": "a"},
+    {"prog": "where", "term": "sel", "sel": "a"},
+]
+
+
 def _cases(ctx, broken):
     rng = ctx.rng
     pdenv, _ = _envs(False)
@@ -1216,20 +1287,25 @@ def _cases(ctx, broken):
         rng.shuffle(rest)
         return first + rest[:300]
     if ctx.quick:
-        # every program keeps its single-column selections; the rest is sampled
-        base_cases = [c for c in cases if c["term"] == "sel" and (not isinstance(c["sel"], list) or len(c["sel"]) == 1)]
-        other = [c for c in cases if c not in base_cases]
-        rng.shuffle(other)
-        per_prog = defaultdict(int)
+        # the corpus, then per program a seeded sample: one scalar, one one-element list, two longer lists, one shared shape
+        rng.shuffle(cases)
+        per = defaultdict(lambda: defaultdict(int))
+        quota = {"scalar": 1, "list1": 1, "listn": 2, "shared": 2}
         picked = []
-        for c in other:
-            if per_prog[c["prog"]] < 4:
-                per_prog[c["prog"]] += 1
+        for c in cases:
+            if c["term"] != "sel":
+                kind = "shared"
+            elif not isinstance(c["sel"], list):
+                kind = "scalar"
+            else:
+                kind = "list1" if len(c["sel"]) == 1 else "listn"
+            if per[c["prog"]][kind] < quota[kind]:
+                per[c["prog"]][kind] += 1
                 picked.append(c)
-        cases = base_cases + picked
+        cases = picked
     else:
         cases += [dict(c, source="from_map") for c in cases if c["term"] in ("sel", "filter_sel")][::3]
-    return cases
+    return CORPUS + cases
 
 
 def support(ctx, broken):
@@ -1254,8 +1330,8 @@ def support(ctx, broken):
         sup.count("outcome:" + kind)
         if kind not in _GENUINE:
             continue  # unsupported by dask-expr / fails identically without the optimiser: not a C04 matter
-        sig = {"site": prog.site, "trigger": prog.trigger, "kind": kind}
-        key = (prog.site, prog.trigger, kind)
+        sig = _sig(prog, case, kind)
+        key = tuple(sorted(sig.items()))
         if key in seen:
             continue
         seen.add(key)
@@ -1268,4 +1344,4 @@ def replay(case):
     if res is None or res[0] not in _GENUINE:
         return None
     prog = _prog(case["prog"])
-    return Failure(sig={"site": prog.site, "trigger": prog.trigger, "kind": res[0]}, case=case, detail=res[1])
+    return Failure(sig=_sig(prog, case, res[0]), case=case, detail=res[1])
